@@ -3,7 +3,7 @@ Fresh-allocation invariant for futures, part 2: the invariant `FInv` and its pre
 elementary updates of which the transitions are composed.
 
 `FInv` holds at every intermediate state of a transition (the running task may have any `lib`
-while it is running; the links only speak about suspended tasks).  `Fresh st f`: `f` was just
+while it is running; the links only speak about suspended tasks).  `FFresh st f`: `f` was just
 allocated: it has no role yet, nobody waits for it, it is pending.
 -/
 import AnyioModel.Kernel.FutInv
@@ -33,7 +33,7 @@ structure FInv (st : State) : Prop where
   lib_created : ∀ t, (st.tasks t).st = .created → (st.tasks t).lib = .none
 
 /-- `f` has just been allocated -/
-structure Fresh (st : State) (f : Nat) : Prop where
+structure FFresh (st : State) (f : Nat) : Prop where
   lt : f < st.nFuts
   norole : ∀ r, ¬ HasRole st f r
   noblk : ∀ t, (st.tasks t).st ≠ .blocked f ∧ (st.tasks t).st ≠ .woken f
@@ -144,7 +144,7 @@ theorem finv_fsame {a b : State} (h : FInv a) (s : FSame a b) : FInv b := by
     have := hst t
     grind
 
-theorem fresh_fsame {a b : State} {f : Nat} (h : Fresh a f) (s : FSame a b) : Fresh b f := by
+theorem fresh_fsame {a b : State} {f : Nat} (h : FFresh a f) (s : FSame a b) : FFresh b f := by
   refine ⟨by rw [s.nFuts]; exact h.lt, fun r hr => h.norole r (hasRole_of_fsame s hr), ?_, ?_⟩
   · intro t
     have := h.noblk t
